@@ -39,6 +39,21 @@ def get_cast_source(value: SSAValue) -> SSAValue:
     return value
 
 
+def is_handed_on(value: SSAValue) -> bool:
+    """
+    Check if the buffer leaves the iteration it is created in: it is yielded (to the next iteration, out of the
+    loop, out of a conditional) or it is the initial value of a loop-carried value - directly or as a view of it.
+    """
+    for use in value.uses:
+        user = use.operation
+        if user.has_trait(IsTerminator) or isinstance(user, scf.ForOp | scf.WhileOp):
+            return True
+        if isinstance(user, memref.CastOp | memref.SubviewOp | memref.MemorySpaceCastOp):
+            if any(is_handed_on(result) for result in user.results):
+                return True
+    return False
+
+
 def is_in_loop(op: Operation) -> bool:
     """
     Check if the operation is inside a loop.
@@ -100,14 +115,7 @@ class LoopHoistPureOperations(RewritePattern):
                     not isinstance(op, scf.YieldOp),
                     # a buffer that is handed on to the next iteration, out of the loop or into another loop
                     # (yielded, or the initial value of a loop-carried value) has to be a new one in every iteration
-                    not (
-                        is_whitelisted(main_op)
-                        and any(
-                            use.operation.has_trait(IsTerminator) or isinstance(use.operation, scf.ForOp | scf.WhileOp)
-                            for r in op.results
-                            for use in r.uses
-                        )
-                    ),
+                    not (is_whitelisted(main_op) and any(is_handed_on(r) for r in op.results)),
                 ]
             ):
                 return True
